@@ -21,6 +21,7 @@ type Thread struct {
 	CEnd   *Term
 	Regs   map[string]Value
 	Allocs map[string]int
+	Maps   map[string]*MapObj
 	Inputs map[string]thrInput
 	ObsIdx map[string]int
 	His    []*Term // Hi per round
